@@ -15,6 +15,111 @@ from ..roles import incoming_send_calls, stream_roles
 CUTOFF = (2025, 6, 18)  # the property's own constant
 
 
+VALID_MEMBERS = [
+    ("a request with id 0", {"jsonrpc": "2.0", "id": 0, "method": "ping"}),
+    ("a request with a string id", {"jsonrpc": "2.0", "id": "a", "method": "tools/list", "params": {}}),
+    ("a notification", {"jsonrpc": "2.0", "method": "notifications/progress", "params": {}}),
+    ("a response with id 0", {"jsonrpc": "2.0", "id": 0, "result": {}}),
+    ("a response with the empty string as id", {"jsonrpc": "2.0", "id": "", "result": {"x": 1}}),
+    ("a response with a null result", {"jsonrpc": "2.0", "id": 7, "result": None}),
+    ("a response with a falsy result", {"jsonrpc": "2.0", "id": 7, "result": 0}),
+    ("an error response with id 0", {"jsonrpc": "2.0", "id": 0, "error": {"code": -32601, "message": "m"}}),
+    ("an error response", {"jsonrpc": "2.0", "id": "r-1", "error": {"code": -32000, "message": ""}}),
+]
+
+
+def _filtered_view_obligations(P: Project, R: Report, pm: FuncInfo, g: FuncInfo, loop) -> None:
+    """`g(batch)` yields members of the batch: unchanged, in order, and every member that is a valid message.  The filter
+    is read off for a fixed set of valid members (falsy ids, null and falsy results included) without running anything."""
+    from ..consteval import NotConstant, fold
+
+    params = [p_ for p_ in g.positional_params() if p_ != "self"]
+    R.need(len(params) == 1, f"anchor: {g.qual} takes {len(params)} arguments, not the batch alone")
+    bp = params[0]
+    floops = [n for n in walk_local(g.node) if isinstance(n, ast.For)]
+    yields = [n for n in walk_local(g.node) if isinstance(n, (ast.Yield, ast.YieldFrom))]
+    comp = None
+    if not floops and not yields:
+        rets = [r for r in walk_local(g.node) if isinstance(r, ast.Return) and r.value is not None]
+        if len(rets) == 1 and isinstance(rets[0].value, (ast.ListComp, ast.GeneratorExp)) and len(rets[0].value.generators) == 1:
+            comp = rets[0].value
+    item = pred = None
+    where = g.where
+    if comp is not None:
+        gen = comp.generators[0]
+        if isinstance(gen.target, ast.Name) and ast.unparse(gen.iter) == bp and isinstance(comp.elt, ast.Name) and comp.elt.id == gen.target.id:
+            item = gen.target.id
+            pred = gen.ifs
+    elif len(floops) == 1 and len(yields) >= 1 and all(isinstance(y, ast.Yield) for y in yields):
+        fl = floops[0]
+        it = fl.iter
+        tgt = fl.target
+        if isinstance(it, ast.Call) and call_name(it) == "enumerate" and len(it.args) == 1 and isinstance(tgt, ast.Tuple) and len(tgt.elts) == 2:
+            it, tgt = it.args[0], tgt.elts[1]
+        if ast.unparse(it) == bp and isinstance(tgt, ast.Name) and all(isinstance(y.value, ast.Name) and y.value.id == tgt.id for y in yields) and not fl.orelse:
+            item = tgt.id
+            # the condition under which the single yield is reached: the tests of the ifs enclosing it, with their polarity
+            conds = []
+
+            def find(stmts, acc):
+                for s_ in stmts:
+                    if isinstance(s_, ast.Expr) and isinstance(s_.value, ast.Yield):
+                        conds.append(list(acc))
+                    elif isinstance(s_, ast.If):
+                        find(s_.body, acc + [s_.test])
+                        find(s_.orelse, acc + [ast.UnaryOp(op=ast.Not(), operand=s_.test)])
+                    elif isinstance(s_, (ast.Try, ast.With, ast.For, ast.While)):
+                        conds.append(None)
+
+            find(fl.body, [])
+            if len(conds) == 1 and conds[0] is not None and len(yields) == 1:
+                pred = conds[0]
+    if item is None or pred is None:
+        raise AnalysisError(f"the batch is iterated through {g.qual}, whose body is not a plain in-order filter of its argument — a shape this rule cannot read")
+    R.fn(g.fq)
+    R.ob("R3", f"{g.qual} yields the members of the batch unchanged and in order", True, where, "", sample=f"R3 {g.qual}: in-order filter of `{bp}` by {[ast.unparse(c)[:40] for c in pred]}")
+    class _Kept(Exception):
+        pass
+
+    def run_body(stmts, env):
+        """one iteration of the filter loop for a constant member: True as soon as the member is yielded"""
+        for s_ in stmts:
+            if isinstance(s_, ast.Expr) and isinstance(s_.value, ast.Yield):
+                raise _Kept()
+            if isinstance(s_, ast.Expr) and isinstance(s_.value, ast.Call) and call_name(s_.value).split(".")[0] in ("logger", "logging", "log"):
+                continue
+            if isinstance(s_, (ast.Pass,)) or (isinstance(s_, ast.Expr) and isinstance(s_.value, ast.Constant)):
+                continue
+            if isinstance(s_, ast.Continue):
+                return "continue"
+            if isinstance(s_, ast.Assign) and len(s_.targets) == 1 and isinstance(s_.targets[0], ast.Name):
+                env[s_.targets[0].id] = fold(P, g.module, s_.value, local=env)
+                continue
+            if isinstance(s_, ast.If):
+                r = run_body(s_.body if fold(P, g.module, s_.test, local=env) else s_.orelse, env)
+                if r == "continue":
+                    return r
+                continue
+            raise NotConstant(ast.unparse(s_)[:60])
+        return None
+
+    for label, member in VALID_MEMBERS:
+        try:
+            if comp is not None:
+                kept = all(bool(fold(P, g.module, c, local={item: member})) for c in pred)
+            else:
+                try:
+                    run_body(floops[0].body, {item: member, "index": 0})
+                    kept = False
+                except _Kept:
+                    kept = True
+        except NotConstant as e:
+            raise AnalysisError(f"the member filter of {g.qual} (`{' and '.join(ast.unparse(c)[:40] for c in pred)}`) cannot be read off for {label}: {e}")
+        R.ob("R3", f"{g.qual} keeps {label}", kept, where,
+             f"the filter `{' and '.join(ast.unparse(c)[:50] for c in pred)}` is false for `{member}`: a valid member of an accepted batch is left out before it is parsed, although the same object sent alone on a line is delivered",
+             sample=f"R3 {g.qual}: keeps {label}")
+
+
 def check(P: Project, R: Report) -> None:
     R.rule("R1", "supports_batching, interpreted over the interval partition of (year, month, day) induced by every constant it compares with, returns True exactly on the regions lexicographically below (2025, 6, 18); None/empty -> True")
     R.rule("R2", "ProtocolVersion.compare orders two validated strings by plain string comparison and validate_format admits only dddd-dd-dd, so string order = date order and R1's oracle is compare(v, '2025-06-18') < 0")
@@ -329,6 +434,15 @@ def r3(P: Project, R: Report) -> None:
 
     # list ∧ enabled: per-item try, routed in list order
     loops = [n for n in walk_local(pm.node) if isinstance(n, (ast.For, ast.AsyncFor)) and ast.unparse(n.iter) == data]
+    if not loops:
+        # the members may be taken from a view of the batch built by a helper (`for item in self.batch_processor.members(data)`):
+        # a view that yields the members unchanged and in order and only leaves out what cannot be a message is the batch
+        views = [n for n in walk_local(pm.node) if isinstance(n, (ast.For, ast.AsyncFor)) and isinstance(n.iter, ast.Call) and len(n.iter.args) == 1 and not n.iter.keywords and ast.unparse(n.iter.args[0]) == data]
+        for n in views:
+            g = P.resolve_call(pm, n.iter)
+            R.need(isinstance(g, FuncInfo), f"anchor: the batch is iterated through `{ast.unparse(n.iter)[:50]}`, which is not a function of the package")
+            _filtered_view_obligations(P, R, pm, g, n)
+        loops = views
     R.need(len(loops) == 1, f"anchor: expected one loop over the batch `{data}`, found {len(loops)}")
     loop = loops[0]
     item = ast.unparse(loop.target)
